@@ -536,3 +536,25 @@ PROPS["C05"] = dict(
             Stage("c05", pkg="mon_stark", variant="chk", kind="sharded", n=(20000, 400000), mem_gb=4, timeout=(900, 7200)),
             Stage("c05", pkg="mon_stark", variant="asan", kind="sharded", n=(6000, 200000), mem_gb=None, env=ASAN_ENV, timeout=(900, 7200))],
 )
+
+PROPS["C03"] = dict(
+    level="fault_enumeration",
+    rule="per honest GenAir proof (as C01, trace length 2^3..2^7 (thorough 2^10); base, quadratic and cubic constraint fields; 11 "
+         "field/hasher pairs) the public-coin transcript is replayed with public APIs (aux randomness, z, DEEP coefficients, FRI "
+         "alphas, query positions; self-test: identity re-encoding verifies and the replayed unique-position count matches) and "
+         "the revealed data is edited so that every algebraic check still holds at the queried positions: main + constraint "
+         "cells and auxiliary + constraint cells with cc_a*d_a + cc_b*d_b = 0 (DEEP value unchanged), two main cells, two "
+         "constraint cells, swapped rows; in the FRI part at EVERY layer: value changed, rows swapped, row crafted to keep its "
+         "fold at alpha; remainder coefficient changed, remainder = R + c*prod(x-x_i) over all queried final points, leading "
+         "zeros trimmed; each crafted forgery must be ACCEPTED with exactly the targeted commitment checks switched off "
+         "(failpoint hook; otherwise inconclusive), REJECTED by each remaining single check with that check's error, and "
+         "REJECTED with all checks on; the same FRI attacks run against the standalone FRI API (C09's stage); "
+         "evaluation = one verification; distinct = instances",
+    assumptions=["decides the property against these adversaries (every single-position, two-cell substitution class per "
+                 "committed object and the FRI row / remainder substitutions), not against all adversaries",
+                 "failpoints (winter_utils::verif, cfg winterfell_verif) are used only to validate forgeries; judged runs have every check on"],
+    floor=60,
+    stages=[Stage("c03", pkg="mon_stark", variant="rel", kind="sharded", n=(640, 24000), timeout=(900, 7200)),
+            Stage("c03", pkg="mon_stark", variant="chk", kind="sharded", n=(160, 3000), timeout=(900, 7200)),
+            Stage("c09", pkg="mon_leaf", variant="rel", kind="sharded", n=(480, 12000), timeout=(900, 7200))],
+)
